@@ -40,6 +40,8 @@ type Engine struct {
 	log     []Batch
 	note    string
 	record  bool
+	armed   bool
+	crashAt int
 	OnWrite func(idx int, b *Batch) // called under mu after the batch was applied
 	// ReadFault, if set, is consulted on every Get/Has; a non-nil error is returned to the caller.
 	ReadFault func(key []byte) error
@@ -72,6 +74,10 @@ func (e *Engine) Log() []Batch {
 func cp(b []byte) []byte { return append([]byte(nil), b...) }
 
 func (e *Engine) apply(b Batch) error {
+	if e.armed && e.record && len(e.log) >= e.crashAt {
+		e.mu.Unlock() // apply is always called with mu held; release it before unwinding
+		panic(CrashSentinel{At: e.crashAt, Class: WriteClass(&b)})
+	}
 	bulk := e.inner.Bulk()
 	for _, o := range b.Ops {
 		if o.Del {
@@ -118,14 +124,16 @@ func (e *Engine) Has(key []byte) (bool, error) {
 
 func (e *Engine) Put(key, val []byte) error {
 	e.mu.Lock()
-	defer e.mu.Unlock()
-	return e.apply(Batch{Ops: []Op{{false, cp(key), cp(val)}}, Kind: "put"})
+	err := e.apply(Batch{Ops: []Op{{false, cp(key), cp(val)}}, Kind: "put"})
+	e.mu.Unlock()
+	return err
 }
 
 func (e *Engine) Delete(key []byte) error {
 	e.mu.Lock()
-	defer e.mu.Unlock()
-	return e.apply(Batch{Ops: []Op{{true, cp(key), nil}}, Kind: "delete"})
+	err := e.apply(Batch{Ops: []Op{{true, cp(key), nil}}, Kind: "delete"})
+	e.mu.Unlock()
+	return err
 }
 
 func (e *Engine) Snapshot() kv.Snapshot          { return e.inner.Snapshot() }
@@ -307,3 +315,58 @@ func storeName(k []byte) string {
 	}
 	return best
 }
+
+// WriteClass maps an atomic write of a node's block import to the step of store/ImportCrash.tla it belongs to:
+// state (account/storage tries, code bulk) | idx (block-number index trie) | blk (block bulk incl. best pointer) |
+// q (persisted quality of a store-point) | fin (finalized checkpoint) | resync | other | mixed.
+// Assumes HistPartitionFactor = 1 (the default of NewWithEngine): hist key = 0 | u32 partition | trie name | ...
+func WriteClass(b *Batch) string {
+	cls := ""
+	add := func(c string) {
+		if cls == "" || cls == c {
+			cls = c
+		} else {
+			cls = "mixed"
+		}
+	}
+	for _, o := range b.Ops {
+		k := o.Key
+		switch {
+		case len(k) > 5 && (k[0] == SpaceHist || k[0] == SpaceDedup):
+			if k[5] == 'i' {
+				add("idx")
+			} else {
+				add("state")
+			}
+		case len(k) > 1 && k[0] == SpaceNamed:
+			n := k[1:]
+			switch {
+			case bytes.HasPrefix(n, []byte("state.code")):
+				add("state")
+			case bytes.HasPrefix(n, []byte("chain.")):
+				add("blk")
+			case bytes.HasPrefix(n, []byte("bft.enginefinalized")):
+				add("fin")
+			case bytes.HasPrefix(n, []byte("bft.enginebft.resync")):
+				add("resync")
+			case bytes.HasPrefix(n, []byte("bft.engine")):
+				add("q")
+			default:
+				add("other")
+			}
+		default:
+			add("other")
+		}
+	}
+	return cls
+}
+
+// CrashSentinel is the panic value raised by an engine armed with CrashAt.
+type CrashSentinel struct {
+	At    int
+	Class string // WriteClass of the write that was not applied
+}
+
+// CrashAt arms the engine: the write that would become log entry number n (0-based) is NOT applied and the calling
+// goroutine panics with CrashSentinel — the process "dies" between write n-1 and write n. n < 0 disarms.
+func (e *Engine) CrashAt(n int) { e.mu.Lock(); e.crashAt = n; e.armed = n >= 0; e.mu.Unlock() }
